@@ -192,7 +192,7 @@ func gen(t *rapid.T) (*scen.Scenario, []string) {
 		return genAnswerAfterReconnect(t)
 	}
 	s := rapidSource{t}
-	sc := scen.NewResumed(s)
+	sc := scen.NewSession(s)
 	ncallers := rapid.IntRange(1, run.Pick(6, 8)).Draw(t, "ncallers")
 	callers := scen.Callers(s, ncallers, 4, 1+rapid.IntRange(0, 1000).Draw(t, "base"))
 	steps := []scen.Step{}
@@ -219,6 +219,9 @@ func gen(t *rapid.T) (*scen.Scenario, []string) {
 		cls = append(cls, "feat:"+f)
 	}
 	cls = append(cls, fmt.Sprintf("gomaxprocs=%d", sc.GoMaxProcs))
+	if sc.RPC.Fresh {
+		cls = append(cls, "session:keyed-in-this-process")
+	}
 	if ncallers >= 2 {
 		cls = append(cls, "concurrent-callers")
 	}
